@@ -35,10 +35,10 @@ func init() {
 		ID: "C14", Engine: "storesim",
 		Profiles:  []kit.ProfileSpec{{Name: "faultfree", Weight: 3}, {Name: "faults", Weight: 1}},
 		QuickRuns: 12000, QuickBudgetS: 40, ThoroughRuns: 1300000, ThoroughBudgetS: 540,
-		Rule: "one run = one tape-drawn history (15-60 operations quick, 30-140 thorough) over state.NewWorldState with 4 accounts whose trie keys share prefixes: balance / storage set+delete / contract init+owner / block+disable flags / Clear, account reads through AccountState and AccountSnapshot (handles reused or re-fetched by tape), GetSnapshot, check-snapshot, Reset, ClearCache, Flush, reload (NewWorldState, NewWorldSnapshot+WorldStateFromSnapshot, WorldStateFromSnapshot of a live snapshot), dirty restart, held AccountSnapshots re-read later. " +
+		Rule: "one run = one tape-drawn history (15-60 operations quick, 30-140 thorough) over state.NewWorldState with 4 accounts whose trie keys share prefixes: balance / storage set+delete / contract init+owner / block+disable flags / contract life cycle (deploy a next code version, accept or reject it by its deploy transaction, wrong-transaction and wrong-state audits that must be refused without effect, object graph of the current code) / Clear, account reads through AccountState and AccountSnapshot (handles reused or re-fetched by tape), GetSnapshot, check-snapshot, Reset, ClearCache, Flush, reload (NewWorldState, NewWorldSnapshot+WorldStateFromSnapshot, WorldStateFromSnapshot of a live snapshot), dirty restart, held AccountSnapshots re-read later. " +
 			"Reference = array of account records copied at every snapshot; every live world snapshot is re-read in a tape-chosen account order (optionally through NewReadOnlyWorldState) and its StateHash compared with its first value and with a world state rebuilt from scratch from the logical contents (non-empty accounts only). " +
 			"Non-trivial = at least 3 effective mutations and at least one full snapshot comparison; distinct = distinct event-log hash (operations, arguments, results; no DB access counts because worldstate.go walks its cache in Go map order).",
-		QuickProbes:     []string{"snapshot_compared_after_later_mutation", "account_snapshot_compared_after_later_mutation", "reset_after_mutation", "account_emptied_again", "dirty_restart_with_flushed_root", "reload_world_from_db", "reload_fresh_view", "clear_cache", "flush_error_then_retry_ok", "touch_empty_account", "storage_emptied", "read_through_readonly_worldstate", "world_from_snapshot_object", "account_handle_reused"},
+		QuickProbes:     []string{"snapshot_compared_after_later_mutation", "account_snapshot_compared_after_later_mutation", "reset_after_mutation", "account_emptied_again", "dirty_restart_with_flushed_root", "reload_world_from_db", "reload_fresh_view", "clear_cache", "flush_error_then_retry_ok", "touch_empty_account", "storage_emptied", "read_through_readonly_worldstate", "world_from_snapshot_object", "account_handle_reused", "contract_deployed", "contract_accepted", "contract_rejected", "object_graph_set"},
 		EssentialProbes: []string{"error_surfaced_after_injection", "set_empty_value"},
 		Assumptions: []string{
 			"account universe of 4 ids, 6 storage keys; validators, extension and BTP parts of the world state stay empty",
